@@ -10,7 +10,7 @@ EXTENDS Regroup, Batch
 
 Verdict(o) ==
     IF o.op = "pivot" /\ LabelClash(o.t, o.x, o.y) THEN ""          \* outside the domain: two columns of one name
-    ELSE IF o.raised # "" THEN o.op \o "_raises"
+    ELSE IF o.raised # "" THEN o.stage \o "_raises"            \* stage = the call of the chain that raised
     ELSE IF o.after # o.t THEN "operand_changed"
     ELSE CASE o.op = "listby" ->
                 LET v == ListbyVerdict(o.t, o.by, o.out) IN
